@@ -50,7 +50,8 @@ class Node:
 
     @property
     def loc(self):
-        return "%s:%s" % (self.fn.relfile, self.d.get("l"))
+        f = self.d.get("ifile")
+        return "%s:%s" % (self.fn.prog.rel(f) if f else self.fn.relfile, self.d.get("l"))
 
     @property
     def text(self):
@@ -737,6 +738,16 @@ def key_str(key):
     return "?"
 
 
+def deatomic(key):
+    """the same access path with explicit atomic loads written as plain reads: atomic_load(&x->f) is x->f, atomic_load(p) is *p"""
+    if not isinstance(key, tuple):
+        return key
+    if key and key[0] == "atomic" and key[1] == "load":
+        k = deatomic(key[2])
+        return k[1] if k[0] == "&" else ("*", k)
+    return tuple(deatomic(x) for x in key)
+
+
 def key_mentions(key, pred):
     """Does any sub-key satisfy pred?"""
     if pred(key):
@@ -780,8 +791,16 @@ class Program:
         self.records = {}
         self.globals = []
         self.units = []
-        for u in manifest["units"]:
-            d = json.load(open(os.path.join(factdir, u["json"])))
+        import inline
+        census = inline.load_census()
+        loaded = [(u, json.load(open(os.path.join(factdir, u["json"])))) for u in manifest["units"]]
+        taken = inline._addr_taken([fd for _, d in loaded for fd in d["functions"]])
+        self.inlined = []
+        gone = inline.inline_program([d["functions"] for _, d in loaded], census, taken, self.inlined)
+        for u, d in loaded:
+            if gone:
+                d["functions"] = [fd for fd in d["functions"] if fd["name"] not in gone]
+        for u, d in loaded:
             self.units.append(u["unit"])
             for r in d["records"]:
                 self.records.setdefault(r["name"], r)
